@@ -39,3 +39,65 @@ Theorem relabelling_moves_the_operator :
     forall c, circ mul one den (map relabel_gate c) = relabel (circ mul one den c).
 Proof. intros; now apply on_qubits_ok. Qed.
 Print Assumptions relabelling_moves_the_operator.
+
+(* ---------------------------------------------------------------- control on the dense operators *)
+(* Base/SemCtrl.v, C05/InstMat.v (section ControlledBy).  gate = C01/Model.gate (flag, controls, targets,
+   matrix); gate_op = its operator (Base/Mat.cembed for the controlled_by form, embed otherwise);
+   controlled_by qs g = the model of Gate.controlled_by on a gate without controls;
+   ctrl_mat K k M = diag(1, ..., 1, M) with 2^k blocks; basis K n c = the basis vector |c>. *)
+From Coq Require Import Arith.
+From QV Require Import Base.Mat C01.Model C01.Spec C01.Lib C01.ProofsMat C01.ProofsRun C01.ProofsDM C01.ProofsGram
+  Base.SemCtrl C05.InstMat.
+
+(* the operator of g.controlled_by(qs) is, as a full matrix on qs ++ targets, the block-control of g's matrix *)
+Theorem controlled_by_is_block_control :
+  forall (T : Type) (K : ops T) n qs ts (M : mat T),
+    NoDup qs -> (forall q, In q (qs ++ ts) -> q < n) -> (forall q, In q qs -> ~ In q ts) ->
+    wf_mat (length ts) M ->
+    gate_op K n (controlled_by qs (false, [], ts, M)) = embed K n (qs ++ ts) (ctrl_mat K (length qs) M).
+Proof. intros T K n qs ts M. exact (controlled_by_op_eq K n qs ts M). Qed.
+Print Assumptions controlled_by_is_block_control.
+
+(* controlled_by semantics: on a basis state with some control bit 0 nothing happens, with all control
+   bits 1 the original gate acts on the targets *)
+Theorem controlled_by_semantics_on_basis_states :
+  forall (T : Type) (K : ops T), semiring K ->
+  forall n qs ts (M : mat T) c, length c = n ->
+    (forall q, In q qs -> q < n) -> (forall q, In q qs -> ~ In q ts) ->
+    mvmul K (gate_op K n (controlled_by qs (false, [], ts, M))) (basis K n c)
+    = if all1 (sel qs c) then mvmul K (gate_op K n (false, [], ts, M)) (basis K n c) else basis K n c.
+Proof. intros T K HK n qs ts M c. exact (controlled_by_on_basis_eq K HK n qs ts M c). Qed.
+Print Assumptions controlled_by_semantics_on_basis_states.
+
+(* dagger commutes with control: as gate objects, as operators, and as block matrices *)
+Theorem dagger_commutes_with_control_gates :
+  forall (T : Type) (K : ops T) (cj : T -> T) qs (g : gate (T:=T)), uncontrolled g ->
+    dag K cj (controlled_by qs g) = controlled_by qs (dag K cj g).
+Proof. intros T K cj qs g. exact (dag_controlled_by_eq K cj qs g). Qed.
+Print Assumptions dagger_commutes_with_control_gates.
+
+Theorem dagger_commutes_with_control_operators :
+  forall (T : Type) (K : ops T) (cj : T -> T), conj_ok K cj ->
+  forall n qs (g : gate (T:=T)), uncontrolled g -> gate_wf n (controlled_by qs g) ->
+    gate_op K n (controlled_by qs (dag K cj g)) = madj K cj n (gate_op K n (controlled_by qs g)).
+Proof. intros T K cj HC n qs g. exact (controlled_by_dagger_op_eq K cj HC n qs g). Qed.
+Print Assumptions dagger_commutes_with_control_operators.
+
+Theorem dagger_commutes_with_control_matrices :
+  forall (T : Type) (K : ops T) (cj : T -> T), cj (zero K) = zero K -> cj (one K) = one K ->
+  forall k t (M : mat T), wf_mat t M ->
+    ctrl_mat K k (madj K cj t M) = madj K cj (k + t) (ctrl_mat K k M).
+Proof. exact ctrl_mat_adjoint. Qed.
+Print Assumptions dagger_commutes_with_control_matrices.
+
+(* a controlled unitary is unitary (gate matrix unchanged; the full block matrix is an isometry) *)
+Theorem controlled_unitary_is_unitary :
+  forall (T : Type) (K : ops T) (cj : T -> T), semiring K -> conj_ok K cj ->
+  forall qs (g : gate (T:=T)), uncontrolled g -> gate_unitary K cj g ->
+    gate_unitary K cj (controlled_by qs g)
+    /\ (let '(_, _, ts, M) := g in
+        let U := ctrl_mat K (length qs) M in
+        wf_mat (length qs + length ts) U
+        /\ mmul K (madj K cj (length qs + length ts) U) U = eye K (2 ^ (length qs + length ts))).
+Proof. intros T K cj HK HC qs g. exact (controlled_by_unitary_eq K cj HK HC qs g). Qed.
+Print Assumptions controlled_unitary_is_unitary.
